@@ -4,7 +4,7 @@ import json, os, subprocess, sys
 os.chdir("/verif")
 allp = ["C01","C02","C03","C04","C05","C06","C08","C09","C10","C11","C12","C13","C14","C15","C16","C17","C18","C19","C20"]
 extra = {"C01": ["C11","C02","C15"], "C02": ["C10", "C01"], "C09": ["C01"], "C10": ["C02","C05"], "C11": ["C03","C05"], "C12": ["C01"], "C13": ["C01","C05"], "C16": ["C03"], "C20": ["C16"], "C03": ["C04"], "C14": ["C04"], "C04": ["C14"], "C05": ["C03"], "C18": ["C03","C05"], "C19": ["C03"]}
-seeds = sorted(d for d in os.listdir("seeded") if os.path.isdir(f"seeded/{d}"))
+seeds = sorted(d for d in os.listdir("seeded") if os.path.isdir(f"seeded/{d}") and os.path.exists(f"seeded/{d}/meta.json"))
 own_only = "--own" in sys.argv
 only = [a for a in sys.argv[1:] if not a.startswith("--")]
 matrix = json.load(open("seeded/matrix.json")) if os.path.exists("seeded/matrix.json") else {}
